@@ -121,20 +121,39 @@ func main() {
 		os.Exit(1)
 	}
 
+	// warm-up: run every rule once to learn which functions rules look up by name (anchors);
+	// helper transparency is off meanwhile and the results are discarded (transparent.go)
+	{
+		var all []string
+		for id := range registry {
+			all = append(all, id)
+		}
+		sort.Strings(all)
+		for _, id := range all {
+			for _, rule := range registry[id].rules {
+				func() {
+					defer func() { _ = recover() }()
+					rule(p, &Report{Prop: id, p: p})
+				}()
+			}
+		}
+		ht.enabled = true
+	}
+
 	exit := 0
 	for _, id := range ids {
 		spec := registry[id]
 		rep := &Report{Prop: id, p: p}
-		func() {
-			defer func() {
-				if e := recover(); e != nil {
-					rep.undecided("checker", "panic", "-", "checker panicked: %v\n%s", e, debug.Stack())
-				}
-			}()
-			for _, rule := range spec.rules {
+		for ri, rule := range spec.rules {
+			func() {
+				defer func() {
+					if e := recover(); e != nil {
+						rep.undecided("checker", fmt.Sprintf("panic:rule#%d", ri), "-", "checker panicked: %v\n%s", e, debug.Stack())
+					}
+				}()
 				rule(p, rep)
-			}
-		}()
+			}()
+		}
 		if *only != "" {
 			var f []Oblig
 			for _, o := range rep.Obligs {
